@@ -596,3 +596,644 @@ Proof.
   - intros s t s' evs I H. eapply step_inv; eauto.
   - apply Inv_init.
 Qed.
+
+(* ------------------------------------------------------------------------------------------ *)
+(* join_safe / join_live / counting *)
+Lemma holders_zero_nth s :
+  holders s = O -> forall i pl pc, nth_error (sps s) i = Some (pl, pc) -> holds pc = false.
+Proof.
+  intros H i pl pc E. pose proof (sumf_zero_nth holdn _ H i _ E) as Q.
+  unfold holdn in Q. simpl in Q. destruct (holds pc); [discriminate|reflexivity].
+Qed.
+
+Lemma pending_zero s :
+  pending s = O ->
+  (forall i p, nth_error (sps s) i = Some p -> sp_setting p = false) /\
+  (forall j x, nth_error (jns s) j = Some x -> jmode_ x <> JPend).
+Proof.
+  unfold pending. intros H.
+  assert (A1 : sumf setn (sps s) = O) by lia. assert (A2 : sumf pendn (jns s) = O) by lia.
+  split.
+  - intros i p E. pose proof (sumf_zero_nth setn _ A1 i _ E) as Q.
+    unfold setn in Q. destruct (sp_setting p); [discriminate|reflexivity].
+  - intros j x E M. pose proof (sumf_zero_nth pendn _ A2 j _ E) as Q.
+    unfold pendn in Q. rewrite M in Q. discriminate.
+Qed.
+
+Theorem join_safe b plans progs sched :
+  let s := fst (run step sched (init b plans progs, [])) in
+  evt s = true \/ (0 < pending s)%nat ->
+  w s = 0 /\ forall i pl pc, nth_error (sps s) i = Some (pl, pc) -> holds pc = false.
+Proof.
+  intros s H. pose proof (inv_reachable b plans progs sched) as I. fold s in I.
+  assert (W0 : w s = 0) by (apply (I_safe s I); tauto).
+  split; auto. apply holders_zero_nth.
+  pose proof (I_cnt s I) as C. destruct (wopen_cases s); lia.
+Qed.
+
+Theorem join_live b plans progs sched :
+  let s := fst (run step sched (init b plans progs, [])) in
+  w s = 0 -> pending s = O -> evt s = true.
+Proof.
+  intros s W0 P0. pose proof (inv_reachable b plans progs sched) as I. fold s in I.
+  destruct (I_live s I W0); [auto|lia].
+Qed.
+
+Theorem counted b plans progs sched :
+  let s := fst (run step sched (init b plans progs, [])) in
+  w s = 2 * Z.of_nat (holders s) + Z.b2z (Z.odd (w s)) /\ 0 <= w s.
+Proof.
+  intros s. pose proof (inv_reachable b plans progs sched) as I. fold s in I.
+  pose proof (I_cnt s I) as C. unfold wopen in C. split; auto.
+  destruct (b2z_odd_cases (w s)); lia.
+Qed.
+
+(* ------------------------------------------------------------------------------------------ *)
+(* admission *)
+Lemma step_closed_stable t s s' evs :
+  step t s = Some (s', evs) -> Z.even (w s) = true -> Z.even (w s') = true.
+Proof.
+  intros H Ev. unfold step in H. destruct (Nat.ltb t (nsp s)).
+  - unfold step_sp in H. destruct (nth_error (sps s) t) as [[pl pc]|]; [|discriminate].
+    destruct pc; try (inversion H; subst; simpl; auto; fail).
+    + destruct (w s =? o) eqn:Q; inversion H; subst; simpl; auto.
+      apply Z.eqb_eq in Q. rewrite <- Q. replace (w s + 2) with (w s + 2 * 1) by lia.
+      rewrite Z.even_add_mul_2. auto.
+    + inversion H; subst; simpl. replace (w s - 2) with (w s + 2 * (-1)) by lia.
+      rewrite Z.even_add_mul_2. auto.
+  - unfold step_jn in H. destruct (nth_error (jns s) (t - nsp s)) as [x|]; [|discriminate].
+    destruct (jmode_ x); [| inversion H; subst; simpl; auto | discriminate].
+    destruct (jprog x) as [|op r]; [discriminate|].
+    destruct op; try (inversion H; subst; simpl; auto; fail).
+    + inversion H; subst; simpl.
+      rewrite <- Z.negb_odd, <- Z.bit0_odd, Z.land_spec.
+      change (Z.testbit (-2) 0) with false. rewrite andb_false_r. reflexivity.
+    + destruct (evt s); inversion H; subst; simpl; auto.
+Qed.
+
+Theorem closed_stable b plans progs sched1 sched2 :
+  let s1 := fst (run step sched1 (init b plans progs, [])) in
+  let s2 := fst (run step (sched1 ++ sched2) (init b plans progs, [])) in
+  Z.even (w s1) = true -> Z.even (w s2) = true.
+Proof.
+  intros s1 s2 H. unfold s2. rewrite run_app.
+  apply (run_invariant_state st nat ev step (fun s => Z.even (w s) = true)); auto.
+  intros s t s' evs Hs Hstep. eapply step_closed_stable; eauto.
+Qed.
+
+(* a successful try_record_start happens while the scope is open and adds one reference *)
+Theorem admit_while_open b plans progs sched t s' evs o d :
+  let s := fst (run step sched (init b plans progs, [])) in
+  step t s = Some (s', evs) -> In (ECas o d true) evs ->
+  Z.odd (w s) = true /\ w s = o /\ d = o + 2 /\ w s' = w s + 2 /\ holders s' = S (holders s).
+Proof.
+  intros s H I. pose proof (inv_reachable b plans progs sched) as V. fold s in V.
+  assert (V' : Inv s') by (eapply step_inv; eauto).
+  unfold step in H. destruct (Nat.ltb t (nsp s)).
+  - unfold step_sp in H. destruct (nth_error (sps s) t) as [[pl pc]|] eqn:E; [|discriminate].
+    destruct pc; try (inversion H; subst; simpl in I; intuition discriminate).
+    + destruct (w s =? o0) eqn:Q; inversion H; subst; simpl in I;
+        destruct I as [I|[]]; inversion I; subst.
+      apply Z.eqb_eq in Q. pose proof (I_cas s V _ _ _ E) as Oo.
+      assert (W' : w (upd_sp s (o + 2) t pl (after_admit pl)) = w s + 2) by (simpl; lia).
+      repeat split; auto; try congruence.
+      pose proof (I_cnt s V) as C. pose proof (I_cnt _ V') as C'. rewrite W' in C'.
+      unfold wopen in *. rewrite W' in C'. destruct (odd_shift2 (w s)) as [_ R]. rewrite R in C'.
+      lia.
+    + unfold do_set in H. inversion H; subst. simpl in I. destruct I as [I|I]; [discriminate|].
+      apply in_map_iff in I. destruct I as (? & ? & _). discriminate.
+  - unfold step_jn in H. destruct (nth_error (jns s) (t - nsp s)) as [x|]; [|discriminate].
+    destruct (jmode_ x); [| | discriminate].
+    + destruct (jprog x) as [|op r]; [discriminate|].
+      destruct op; try (inversion H; subst; simpl in I; intuition discriminate).
+      destruct (evt s); inversion H; subst; simpl in I; intuition discriminate.
+    + unfold do_set in H. inversion H; subst. simpl in I. destruct I as [I|I]; [discriminate|].
+      apply in_map_iff in I. destruct I as (? & ? & _). discriminate.
+Qed.
+
+(* once the scope is closed, a reference still in try_record_start is rejected by its next step *)
+Theorem closed_rejects b plans progs sched i pl pc s' evs :
+  let s := fst (run step sched (init b plans progs, [])) in
+  Z.even (w s) = true -> nth_error (sps s) i = Some (pl, pc) ->
+  pc = SLoad \/ (exists o, pc = SCas o) ->
+  step i s = Some (s', evs) ->
+  nth_error (sps s') i = Some (pl, after_reject pl) /\ w s' = w s.
+Proof.
+  intros s Ev E Hpc H. pose proof (inv_reachable b plans progs sched) as V. fold s in V.
+  assert (L : (i < nsp s)%nat) by (eapply nth_error_lt; eauto).
+  unfold step in H. apply Nat.ltb_lt in L. rewrite L in H. unfold step_sp in H. rewrite E in H.
+  apply Nat.ltb_lt in L.
+  destruct Hpc as [->|(o & ->)].
+  - inversion H; subst. unfold closed_word. rewrite Ev. simpl.
+    rewrite nth_error_set_nth_eq by exact L. auto.
+  - pose proof (I_cas s V _ _ _ E) as Oo.
+    destruct (w s =? o) eqn:Q.
+    + apply Z.eqb_eq in Q. rewrite <- Q, <- Z.negb_even, Ev in Oo. discriminate.
+    + inversion H; subst. unfold closed_word. rewrite Ev. simpl.
+      rewrite nth_error_set_nth_eq by exact L. auto.
+Qed.
+
+(* ------------------------------------------------------------------------------------------ *)
+(* well-formed closer/joiner programs: a wait comes after a close of the same thread, a join
+   completion after a wait.  (All programs of the three scopes have this shape.) *)
+Fixpoint wfp (closed : bool) (p : list jop) : bool :=
+  match p with
+  | [] => true
+  | JClose :: r => wfp true r
+  | JWait :: r => closed && wfp closed r
+  | _ :: r => wfp closed r
+  end.
+Fixpoint wfd (waited : bool) (p : list jop) : bool :=
+  match p with
+  | [] => true
+  | JWait :: r => wfd true r
+  | JDone :: r => waited && wfd waited r
+  | _ :: r => wfd waited r
+  end.
+Definition wf_prog (p : list jop) : Prop := wfp false p = true /\ wfd false p = true.
+
+Lemma wfp_mono p : wfp false p = true -> wfp true p = true.
+Proof. induction p as [|op r IH]; simpl; auto. destruct op; auto. discriminate. Qed.
+
+Definition blockedb (x : jst) : bool := match jmode_ x with JBlocked => true | _ => false end.
+Definition prog_of (s : st) (j : nat) : list jop :=
+  match nth_error (jns s) j with Some x => jprog x | None => [] end.
+
+Definition jok (cl : bool) (x : jst) : Prop :=
+  wfp cl (jprog x) = true /\ (jmode_ x = JBlocked -> cl = true) /\
+  wfd (jwaited x || blockedb x) (jprog x) = true.
+
+Record PInv (progs : list (list jop)) (s : st) : Prop := {
+  P_ok : forall j x, nth_error (jns s) j = Some x -> jok (Z.even (w s)) x;
+  P_joined : joined s <> [] -> evt s = true;
+  P_count : forall j, (count_occ Nat.eq_dec (joined s) j + ndone (prog_of s j)
+                       = ndone (nth j progs []))%nat
+}.
+
+Lemma jok_mono x : jok false x -> jok true x.
+Proof. intros (A & B & C). repeat split; auto. apply wfp_mono; auto. Qed.
+
+Lemma jok_cl a b x : (a = true -> b = true) -> jok a x -> jok b x.
+Proof.
+  intros H J. destruct a, b; auto.
+  - specialize (H eq_refl). discriminate.
+  - apply jok_mono; auto.
+Qed.
+
+Lemma jok_woke cl x : jok cl x -> jok cl (woke x).
+Proof.
+  intros (A & B & C). repeat split; simpl; auto; [discriminate|].
+  destruct (jwaited x); simpl in *; auto. unfold blockedb in C.
+  destruct (jmode_ x); simpl in C; auto.
+  - clear -C. revert C. generalize (jprog x). induction l as [|op r IH]; simpl; auto.
+    destruct op; auto. discriminate.
+  - clear -C. revert C. generalize (jprog x). induction l as [|op r IH]; simpl; auto.
+    destruct op; auto. discriminate.
+Qed.
+
+Lemma PInv_init b plans progs :
+  Forall wf_prog progs -> PInv progs (init b plans progs).
+Proof.
+  intros F. constructor; simpl.
+  - intros j x H. apply nth_error_In in H. apply in_map_iff in H. destruct H as (p & <- & I).
+    rewrite Forall_forall in F. destruct (F p I) as (A & B). repeat split; simpl; auto. discriminate.
+  - congruence.
+  - intros j. unfold prog_of; simpl. rewrite nth_error_map.
+    destruct (nth_error progs j) as [p|] eqn:E; simpl.
+    + rewrite (nth_error_nth _ _ _ E). reflexivity.
+    + rewrite nth_overflow by (apply nth_error_None; auto). reflexivity.
+Qed.
+
+Lemma prog_of_set_nth s j x' k js :
+  js = set_nth j x' (jns s) -> (j < length (jns s))%nat ->
+  match nth_error js k with Some x => jprog x | None => [] end =
+  if Nat.eqb j k then jprog x' else prog_of s k.
+Proof.
+  intros -> L. destruct (Nat.eqb_spec j k) as [->|N].
+  - rewrite nth_error_set_nth_eq by auto. reflexivity.
+  - rewrite nth_error_set_nth_neq by auto. reflexivity.
+Qed.
+
+(* the event part: after do_set the programs are unchanged and jok is kept *)
+Lemma PInv_set progs s js sp :
+  (forall j x, nth_error js j = Some x -> jok (Z.even (w s)) x) ->
+  (joined s <> [] -> True) ->
+  (forall j, (count_occ Nat.eq_dec (joined s) j +
+              ndone (match nth_error js j with Some x => jprog x | None => [] end)
+              = ndone (nth j progs []))%nat) ->
+  PInv progs (fst (do_set s js sp)).
+Proof.
+  intros A _ B. unfold do_set. constructor; simpl; auto.
+  - intros j y H. destruct (wake_nth _ _ _ _ H) as (x & E & [->|(_ & _ & ->)]);
+      [eauto | apply jok_woke; eauto].
+  - intros j. unfold prog_of; simpl. rewrite <- (B j). f_equal. f_equal.
+    destruct (nth_error (fold_left wake1 (waiters s) js) j) as [y|] eqn:E.
+    + destruct (wake_prog _ _ _ _ E) as (x & -> & ->). reflexivity.
+    + destruct (nth_error js j) as [x|] eqn:E'; auto.
+      apply nth_error_None in E. rewrite wake_length in E.
+      apply nth_error_None in E. congruence.
+Qed.
+
+Lemma step_sp_pinv progs i s s' evs :
+  PInv progs s -> step_sp i s = Some (s', evs) -> PInv progs s'.
+Proof.
+  intros [A B C] H. unfold step_sp in H.
+  destruct (nth_error (sps s) i) as [[pl pc]|] eqn:E; [|discriminate].
+  assert (Keep : forall v p, Z.even v = Z.even (w s) -> PInv progs (upd_sp s v i pl p)).
+  { intros v p Hv. constructor; simpl; auto. rewrite Hv. auto. }
+  destruct pc; try (inversion H; subst; apply Keep; reflexivity).
+  - destruct (w s =? o) eqn:Q; inversion H; subst; apply Keep; auto.
+    apply Z.eqb_eq in Q. rewrite <- Q. replace (w s + 2) with (w s + 2 * 1) by lia.
+    apply Z.even_add_mul_2.
+  - inversion H; subst; apply Keep. replace (w s - 2) with (w s + 2 * (-1)) by lia.
+    apply Z.even_add_mul_2.
+  - inversion H; subst.
+    change (PInv progs (fst (do_set s (jns s) (set_nth i (pl, SFin true) (sps s))))).
+    apply PInv_set; auto.
+Qed.
+
+Lemma count_occ_cons_neq j k l : j <> k -> count_occ Nat.eq_dec (j :: l) k = count_occ Nat.eq_dec l k.
+Proof. intros N. simpl. destruct (Nat.eq_dec j k); congruence. Qed.
+
+Ltac jok_tac :=
+  split; [simpl in *; auto
+         | split; [simpl; try discriminate; auto
+                  | unfold blockedb; simpl; rewrite ?orb_false_r, ?orb_true_r in *; simpl in *; auto]].
+
+Lemma step_jn_pinv progs j s s' evs :
+  Inv s -> PInv progs s -> step_jn j s = Some (s', evs) -> PInv progs s'.
+Proof.
+  intros V [A B C] H. unfold step_jn in H.
+  destruct (nth_error (jns s) j) as [x|] eqn:E; [|discriminate].
+  assert (Lj : (j < length (jns s))%nat) by (eapply nth_error_lt; eauto).
+  destruct (A j x E) as (A1 & A2 & A3).
+  assert (Cj : prog_of s j = jprog x) by (unfold prog_of; rewrite E; auto).
+  (* generic: joiner j replaced by x', everything else of the PInv-relevant state kept *)
+  assert (Upd : forall s1 x',
+            jns s1 = set_nth j x' (jns s) -> joined s1 = joined s ->
+            (Z.even (w s) = true -> Z.even (w s1) = true) -> (evt s = true -> evt s1 = true) ->
+            jok (Z.even (w s1)) x' -> ndone (jprog x') = ndone (jprog x) -> PInv progs s1).
+  { intros s1 x' Hj Hjd Hw He Jx' Hn. constructor.
+    - intros k y Hy. rewrite Hj in Hy. apply nth_error_set_nth in Hy.
+      destruct Hy as [(_ & -> & _)|(_ & Hy)]; auto.
+      eapply jok_cl; [exact Hw|]. eauto.
+    - rewrite Hjd. auto.
+    - intros k. rewrite Hjd. unfold prog_of. rewrite (prog_of_set_nth s j x' k _ Hj Lj).
+      destruct (Nat.eqb_spec j k) as [<-|N]; auto. rewrite Hn, <- Cj. auto. }
+  destruct (jmode_ x) eqn:M.
+  - destruct (jprog x) as [|op r] eqn:P; [discriminate|].
+    assert (Bx : blockedb x = false) by (unfold blockedb; rewrite M; auto).
+    rewrite Bx, orb_false_r in A3.
+    destruct op.
+    + (* JClose *)
+      inversion H; subst s' evs; clear H.
+      eapply Upd; simpl; eauto.
+      * intros _. rewrite <- Z.negb_odd, <- Z.bit0_odd, Z.land_spec.
+        change (Z.testbit (-2) 0) with false. rewrite andb_false_r. reflexivity.
+      * assert (Ev : Z.even (Z.land (w s) (-2)) = true).
+        { rewrite <- Z.negb_odd, <- Z.bit0_odd, Z.land_spec.
+          change (Z.testbit (-2) 0) with false. rewrite andb_false_r. reflexivity. }
+        rewrite Ev. split; [simpl in A1 |- *; auto | split; [auto|]].
+        unfold blockedb; simpl. destruct (_ && _); simpl; rewrite orb_false_r; simpl in A3; auto.
+    + (* JStop *)
+      inversion H; subst s' evs; clear H.
+      eapply Upd; simpl; eauto. jok_tac.
+    + (* JWait *)
+      simpl in A1, A3. apply andb_prop in A1. destruct A1 as [Cl A1].
+      destruct (evt s) eqn:Ee; inversion H; subst s' evs; clear H.
+      * eapply Upd; simpl; eauto. jok_tac.
+      * eapply Upd; simpl; eauto. jok_tac.
+    + (* JSync *)
+      inversion H; subst s' evs; clear H.
+      eapply Upd; simpl; eauto. jok_tac.
+    + (* JDone *)
+      inversion H; subst s' evs; clear H. simpl in A3. apply andb_prop in A3.
+      destruct A3 as [Wx A3].
+      constructor; simpl.
+      * intros k y Hy. apply nth_error_set_nth in Hy.
+        destruct Hy as [(_ & -> & _)|(_ & Hy)]; eauto.
+        jok_tac.
+      * intros _. eapply (I_g s V); eauto.
+      * intros k. unfold prog_of; simpl.
+        rewrite (prog_of_set_nth s j _ k _ eq_refl Lj).
+        destruct (Nat.eqb_spec j k) as [<-|N].
+        -- destruct (Nat.eq_dec j j); [|congruence]. simpl. rewrite <- (C j), Cj. simpl. lia.
+        -- destruct (Nat.eq_dec j k); [congruence|]. apply C.
+  - (* JPend *)
+    inversion H; subst s' evs; clear H.
+    set (x' := {| jprog := jprog x; jmode_ := JReady; jwaited := jwaited x |}).
+    change (PInv progs (fst (do_set s (set_nth j x' (jns s)) (sps s)))).
+    apply PInv_set; auto.
+    + intros k y Hy. apply nth_error_set_nth in Hy.
+      destruct Hy as [(_ & -> & _)|(_ & Hy)]; eauto.
+      unfold blockedb in A3. rewrite M in A3. jok_tac.
+    + intros k. rewrite (prog_of_set_nth s j x' k _ eq_refl Lj).
+      destruct (Nat.eqb_spec j k) as [<-|N]; auto. simpl. rewrite <- Cj. auto.
+  - discriminate.
+Qed.
+
+Theorem pinv_reachable b plans progs sched :
+  Forall wf_prog progs -> PInv progs (fst (run step sched (init b plans progs, []))).
+Proof.
+  intros F.
+  apply (run_invariant_state st nat ev step (fun s => Inv s /\ PInv progs s)).
+  - intros s t s' evs [I P] H. split; [eapply step_inv; eauto|].
+    unfold step in H. destruct (Nat.ltb t (nsp s)).
+    + eapply step_sp_pinv; eauto.
+    + eapply step_jn_pinv; eauto.
+  - split; [apply Inv_init | apply PInv_init; auto].
+Qed.
+
+(* ------------------------------------------------------------------------------------------ *)
+(* no join completes before the scope is closed and all admitted work has finished *)
+Theorem join_after_work b plans progs sched :
+  Forall wf_prog progs ->
+  let s := fst (run step sched (init b plans progs, [])) in
+  joined s <> [] ->
+  evt s = true /\ w s = 0 /\
+  forall i pl pc, nth_error (sps s) i = Some (pl, pc) -> holds pc = false.
+Proof.
+  intros F s J. pose proof (pinv_reachable b plans progs sched F) as P. fold s in P.
+  assert (E : evt s = true) by (apply (P_joined progs s P J)).
+  split; auto. apply join_safe. auto.
+Qed.
+
+(* each join completes at most once; with one JDone per program: exactly the JDone's executed *)
+Theorem join_count b plans progs sched :
+  Forall wf_prog progs ->
+  let s := fst (run step sched (init b plans progs, [])) in
+  forall j, (count_occ Nat.eq_dec (joined s) j + ndone (prog_of s j) = ndone (nth j progs []))%nat.
+Proof.
+  intros F s. pose proof (pinv_reachable b plans progs sched F) as P. apply (P_count progs _ P).
+Qed.
+
+Theorem join_once b plans progs sched :
+  Forall wf_prog progs -> (forall p, In p progs -> (ndone p <= 1)%nat) ->
+  let s := fst (run step sched (init b plans progs, [])) in
+  NoDup (joined s).
+Proof.
+  intros F D s. apply (NoDup_count_occ Nat.eq_dec). intros j.
+  pose proof (join_count b plans progs sched F j) as C. fold s in C.
+  assert ((ndone (nth j progs []) <= 1)%nat).
+  { destruct (nth_in_or_default j progs []) as [I| ->]; [auto | simpl; lia]. }
+  lia.
+Qed.
+
+(* ------------------------------------------------------------------------------------------ *)
+(* no deadlock: if no thread can move, every reference is finished and every closer/joiner has
+   run its whole program (in particular every started join has completed) *)
+Lemma step_sp_none i s pl pc :
+  nth_error (sps s) i = Some (pl, pc) -> step_sp i s = None -> exists a, pc = SFin a.
+Proof.
+  intros E H. unfold step_sp in H. rewrite E in H.
+  destruct pc; try discriminate; eauto.
+  - destruct (w s =? o); discriminate.
+Qed.
+
+Lemma step_jn_none j s x :
+  nth_error (jns s) j = Some x -> step_jn j s = None ->
+  jmode_ x = JBlocked \/ (jmode_ x = JReady /\ jprog x = []).
+Proof.
+  intros E H. unfold step_jn in H. rewrite E in H.
+  destruct (jmode_ x); auto; try discriminate.
+  destruct (jprog x) as [|op r]; auto.
+  destruct op; try discriminate. destruct (evt s); discriminate.
+Qed.
+
+Theorem no_deadlock b plans progs sched :
+  Forall wf_prog progs ->
+  let s := fst (run step sched (init b plans progs, [])) in
+  (forall t, step t s = None) -> quiescent s = true.
+Proof.
+  intros F s Hn. pose proof (pinv_reachable b plans progs sched F) as P. fold s in P.
+  pose proof (inv_reachable b plans progs sched) as V. fold s in V.
+  assert (SP : forall i p, nth_error (sps s) i = Some p -> exists a, snd p = SFin a).
+  { intros i [pl pc] E. specialize (Hn i). unfold step in Hn.
+    assert (L : (i < nsp s)%nat) by (eapply nth_error_lt; eauto).
+    apply Nat.ltb_lt in L. rewrite L in Hn. simpl. eapply step_sp_none; eauto. }
+  assert (JN : forall j x, nth_error (jns s) j = Some x ->
+                 jmode_ x = JBlocked \/ (jmode_ x = JReady /\ jprog x = [])).
+  { intros j x E. specialize (Hn (nsp s + j)%nat). unfold step in Hn.
+    assert (L : Nat.ltb (nsp s + j) (nsp s) = false) by (apply Nat.ltb_ge; lia).
+    rewrite L in Hn. replace (nsp s + j - nsp s)%nat with j in Hn by lia.
+    eapply step_jn_none; eauto. }
+  assert (H0 : holders s = O).
+  { apply sumf_all_zero. intros i p E. destruct (SP i p E) as (a & Q). unfold holdn. rewrite Q. auto. }
+  assert (P0 : pending s = O).
+  { unfold pending.
+    rewrite (sumf_all_zero setn (sps s)), (sumf_all_zero pendn (jns s)); auto.
+    - intros j x E. unfold pendn. destruct (JN j x E) as [M|(M & _)]; rewrite M; auto.
+    - intros i p E. destruct (SP i p E) as (a & Q). unfold setn, sp_setting. rewrite Q. auto. }
+  assert (NB : forall j x, nth_error (jns s) j = Some x -> jmode_ x <> JBlocked).
+  { intros j x E M.
+    destruct (P_ok progs s P j x E) as (_ & Cl & _). specialize (Cl M).
+    pose proof (I_cnt s V) as C. rewrite H0 in C. unfold wopen in C.
+    rewrite <- Z.negb_even, Cl in C. simpl in C.
+    assert (Ev : evt s = true) by (destruct (I_live s V C); [auto|lia]).
+    pose proof (I_w4 s V Ev) as W. pose proof (I_w2 s V j x E M) as I. rewrite W in I. exact I. }
+  unfold quiescent. apply andb_true_intro. split; apply forallb_forall.
+  - intros p I. apply In_nth_error in I. destruct I as (i & E).
+    destruct (SP i p E) as (a & Q). unfold sp_fin. rewrite Q. auto.
+  - intros x I. apply In_nth_error in I. destruct I as (j & E).
+    destruct (JN j x E) as [M|(M & Q)]; [exfalso; eapply NB; eauto|].
+    unfold jn_fin. rewrite M, Q. auto.
+Qed.
+
+(* at quiescence every join instruction has been executed: each started join completed, once *)
+Theorem quiescent_joined b plans progs sched :
+  Forall wf_prog progs ->
+  let s := fst (run step sched (init b plans progs, [])) in
+  quiescent s = true ->
+  forall j, count_occ Nat.eq_dec (joined s) j = ndone (nth j progs []).
+Proof.
+  intros F s Q j. pose proof (join_count b plans progs sched F j) as C. fold s in C.
+  assert (ndone (prog_of s j) = O); [|lia].
+  unfold prog_of. destruct (nth_error (jns s) j) as [x|] eqn:E; auto.
+  unfold quiescent in Q. apply andb_prop in Q. destruct Q as [_ Q].
+  rewrite forallb_forall in Q. specialize (Q x (nth_error_In _ _ E)).
+  unfold jn_fin in Q. destruct (jmode_ x); try discriminate.
+  destruct (jprog x); [reflexivity|discriminate].
+Qed.
+
+(* ------------------------------------------------------------------------------------------ *)
+(* at most one evt_.set() call is ever made (strict end_scope, or at most one close in total):
+   so once the event is set nobody is about to touch the scope again *)
+Definition RInv (s : st) : Prop :=
+  (pending s + b2n (evt s) <= 1)%nat /\
+  (strict s = true \/ (closes_left s + b2n (Z.even (w s)) <= 1)%nat).
+
+Lemma inv_nonzero s : Inv s -> w s <> 0 -> pending s = O /\ evt s = false.
+Proof.
+  intros V N. split.
+  - destruct (pending s) eqn:P; auto. exfalso. apply N. apply (I_safe s V). left. lia.
+  - destruct (evt s) eqn:E; auto. exfalso. apply N. apply (I_safe s V). auto.
+Qed.
+
+Lemma even_shift2 v : Z.even (v - 2) = Z.even v /\ Z.even (v + 2) = Z.even v.
+Proof. destruct (odd_shift2 v) as [A B]. rewrite <- !Z.negb_odd, A, B. auto. Qed.
+
+Lemma rinv_set s js sp :
+  RInv s -> (sumf setn sp + sumf pendn js + 1 = pending s)%nat -> sumf closen js = closes_left s ->
+  RInv (fst (do_set s js sp)).
+Proof.
+  intros [R1 R2] HP HC. unfold RInv, do_set, pending, closes_left; simpl.
+  rewrite (wake_sum pendn) by (intros x M; unfold pendn; simpl; rewrite M; reflexivity).
+  rewrite (wake_sum closen) by (intros; reflexivity).
+  split.
+  - destruct (evt s); simpl in *; lia.
+  - rewrite HC. exact R2.
+Qed.
+
+Lemma step_sp_rinv i s s' evs : Inv s -> RInv s -> step_sp i s = Some (s', evs) -> RInv s'.
+Proof.
+  intros V [R1 R2] H. unfold step_sp in H.
+  destruct (nth_error (sps s) i) as [[pl pc]|] eqn:E; [|discriminate].
+  assert (Keep : forall v p p0, nth_error (sps s) i = Some (pl, p0) ->
+            sp_setting (pl, p) = sp_setting (pl, p0) -> Z.even v = Z.even (w s) ->
+            RInv (upd_sp s v i pl p)).
+  { intros v p p0 E0 Hs Hv. unfold RInv, pending, closes_left; simpl.
+    pose proof (sum_set_upd s i pl p0 p E0) as Q. rewrite Hs in Q. rewrite Hv.
+    unfold pending, closes_left in *. split; [lia|exact R2]. }
+  destruct pc.
+  - inversion H; subst. eapply Keep; eauto. destruct (closed_word (w s)), pl; reflexivity.
+  - destruct (w s =? o) eqn:Q; inversion H; subst.
+    + eapply Keep; eauto. destruct pl; reflexivity.
+      apply Z.eqb_eq in Q. rewrite <- Q. apply even_shift2.
+    + eapply Keep; eauto. destruct (closed_word (w s)), pl; reflexivity.
+  - inversion H; subst. eapply Keep; eauto.
+  - inversion H; subst. eapply Keep; eauto.
+  - inversion H; subst. eapply Keep; eauto.
+  - inversion H; subst.
+    destruct (closed_word (w s) && (count_of (w s) =? 1)) eqn:Cd.
+    + apply andb_prop in Cd. destruct Cd as [Cw Cn]. apply Z.eqb_eq in Cn.
+      assert (W2 : w s = 2).
+      { pose proof (I_cnt s V) as C. unfold closed_word in Cw.
+        unfold wopen in C. rewrite <- Z.negb_even, Cw in C. simpl in C.
+        rewrite C in Cn. rewrite Z.add_0_r in Cn.
+        change (count_of (2 * Z.of_nat (holders s))) with (count_of (2 * Z.of_nat (holders s))) in Cn.
+        replace (2 * Z.of_nat (holders s)) with (2 * Z.of_nat (holders s) + 0) in Cn by lia.
+        rewrite word_count in Cn by auto. lia. }
+      destruct (inv_nonzero s V ltac:(lia)) as [P0 E0].
+      unfold RInv, pending, closes_left; simpl.
+      pose proof (sum_set_upd s i pl SSub SSet E) as Q. simpl in Q.
+      destruct (even_shift2 (w s)) as [-> _]. rewrite E0. unfold pending, closes_left in *.
+      split; [simpl; lia | exact R2].
+    + eapply Keep; eauto. apply even_shift2.
+  - inversion H; subst.
+    change (RInv (fst (do_set s (jns s) (set_nth i (pl, SFin true) (sps s))))).
+    pose proof (sum_set_upd s i pl SSet (SFin true) E) as Q. simpl in Q.
+    apply rinv_set; [split; auto| unfold pending; lia | reflexivity].
+  - discriminate.
+Qed.
+
+Lemma sum_close_upd s j x x' :
+  nth_error (jns s) j = Some x ->
+  (sumf closen (set_nth j x' (jns s)) + closen x = closes_left s + closen x')%nat.
+Proof. intros E. exact (sumf_set_nth closen j x x' _ E). Qed.
+
+Lemma step_jn_rinv j s s' evs : Inv s -> RInv s -> step_jn j s = Some (s', evs) -> RInv s'.
+Proof.
+  intros V [R1 R2] H. unfold step_jn in H.
+  destruct (nth_error (jns s) j) as [x|] eqn:E; [|discriminate].
+  (* generic: joiner j replaced, w / evt / sps / strict kept, not becoming a setter *)
+  assert (Upd : forall s1 x', jns s1 = set_nth j x' (jns s) -> sps s1 = sps s -> w s1 = w s ->
+            evt s1 = evt s -> strict s1 = strict s -> pendn x' = pendn x -> closen x' = closen x ->
+            RInv s1).
+  { intros s1 x' Hj Hs Hw He Hst Hp Hc. unfold RInv, pending, closes_left.
+    rewrite Hj, Hs, Hw, He, Hst.
+    pose proof (sum_pend_upd s j x x' E) as Q1. pose proof (sum_close_upd s j x x' E) as Q2.
+    unfold pending, closes_left in *. split; [lia|]. destruct R2; [auto|right; lia]. }
+  destruct (jmode_ x) eqn:M.
+  - destruct (jprog x) as [|op r] eqn:P; [discriminate|].
+    assert (PX : pendn x = O) by (unfold pendn; rewrite M; auto).
+    destruct op.
+    + (* JClose *)
+      inversion H; subst s' evs; clear H.
+      set (sets := (count_of (w s) =? 0) && (if strict s then negb (closed_word (w s)) else true)).
+      set (x' := {| jprog := r; jmode_ := if sets then JPend else JReady; jwaited := jwaited x |}).
+      pose proof (sum_pend_upd s j x x' E) as Q1. pose proof (sum_close_upd s j x x' E) as Q2.
+      assert (CX : closen x = S (closen x')) by (unfold closen, x'; rewrite P; reflexivity).
+      assert (PX' : pendn x' = b2n sets) by (unfold pendn, x'; simpl; destruct sets; auto).
+      assert (Ev : Z.even (Z.land (w s) (-2)) = true).
+      { rewrite <- Z.negb_odd, <- Z.bit0_odd, Z.land_spec.
+        change (Z.testbit (-2) 0) with false. rewrite andb_false_r. reflexivity. }
+      unfold RInv, pending, closes_left; cbn [w sps jns evt strict]; fold x'. rewrite Ev.
+      unfold pending, closes_left in *. split.
+      * destruct sets eqn:SS; [|simpl in *; lia].
+        assert (Od : Z.odd (w s) = true).
+        { unfold sets in SS. apply andb_prop in SS. destruct SS as [_ SS].
+          destruct R2 as [St|R2].
+          - rewrite St in SS. unfold closed_word in SS. rewrite <- Z.negb_even. exact SS.
+          - rewrite <- Z.negb_even. destruct (Z.even (w s)); auto. simpl in R2. lia. }
+        assert (N0 : w s <> 0) by (intros Z0; rewrite Z0 in Od; discriminate).
+        destruct (inv_nonzero s V N0) as [P0 E0]. unfold pending in P0. rewrite E0. simpl in *. lia.
+      * destruct R2 as [St|R2]; [left; auto|right].
+        destruct (Z.even (w s)); simpl in *; lia.
+    + inversion H; subst s' evs; clear H. eapply Upd; simpl; eauto.
+      unfold closen; simpl. rewrite P. reflexivity.
+    + destruct (evt s) eqn:Ee; inversion H; subst s' evs; clear H.
+      * eapply Upd; simpl; eauto. unfold closen; simpl. rewrite P. reflexivity.
+      * eapply Upd; simpl; eauto. unfold closen; simpl. rewrite P. reflexivity.
+    + inversion H; subst s' evs; clear H. eapply Upd; simpl; eauto.
+      unfold closen; simpl. rewrite P. reflexivity.
+    + inversion H; subst s' evs; clear H. eapply Upd; simpl; eauto.
+      unfold closen; simpl. rewrite P. reflexivity.
+  - inversion H; subst s' evs; clear H.
+    set (x' := {| jprog := jprog x; jmode_ := JReady; jwaited := jwaited x |}).
+    change (RInv (fst (do_set s (set_nth j x' (jns s)) (sps s)))).
+    pose proof (sum_pend_upd s j x x' E) as Q1. pose proof (sum_close_upd s j x x' E) as Q2.
+    assert (PX : pendn x = 1%nat) by (unfold pendn; rewrite M; auto).
+    assert (PX' : pendn x' = O) by reflexivity.
+    assert (CX : closen x' = closen x) by reflexivity.
+    apply rinv_set; [split; auto | unfold pending; lia | lia].
+  - discriminate.
+Qed.
+
+Lemma RInv_init b plans progs :
+  b = true \/ (sumf nclose progs <= 1)%nat -> RInv (init b plans progs).
+Proof.
+  intros H. unfold RInv, pending, closes_left; simpl. rewrite !sumf_map.
+  unfold setn, pendn, closen; simpl. rewrite !sumf_const0. split; [lia|].
+  destruct H; [left; auto|right; lia].
+Qed.
+
+Theorem rinv_reachable b plans progs sched :
+  b = true \/ (sumf nclose progs <= 1)%nat ->
+  RInv (fst (run step sched (init b plans progs, []))).
+Proof.
+  intros F.
+  apply (run_invariant_state st nat ev step (fun s => Inv s /\ RInv s)).
+  - intros s t s' evs [I P] H. split; [eapply step_inv; eauto|].
+    unfold step in H. destruct (Nat.ltb t (nsp s)).
+    + eapply step_sp_rinv; eauto.
+    + eapply step_jn_rinv; eauto.
+  - split; [apply Inv_init | apply RInv_init; auto].
+Qed.
+
+(* once the event is set (a fortiori once any join has completed) no thread is between its
+   RMW on opState_ and an evt_.set(): nothing will touch the scope's memory again, the owner may
+   destroy it as soon as its closers/joiners have returned *)
+Theorem release_safe b plans progs sched :
+  b = true \/ (sumf nclose progs <= 1)%nat ->
+  let s := fst (run step sched (init b plans progs, [])) in
+  evt s = true ->
+  pending s = O /\ someone_setting s = false /\
+  (forall j x, nth_error (jns s) j = Some x -> jmode_ x <> JPend).
+Proof.
+  intros F s Ev. destruct (rinv_reachable b plans progs sched F) as [R1 _]. fold s in R1.
+  rewrite Ev in R1. simpl in R1. assert (P0 : pending s = O) by lia.
+  destruct (pending_zero s P0) as [A B]. repeat split; auto.
+  unfold someone_setting. destruct (existsb sp_setting (sps s)) eqn:X; auto.
+  apply existsb_exists in X. destruct X as (p & I & Q). apply In_nth_error in I.
+  destruct I as (i & E). rewrite (A i p E) in Q. discriminate.
+Qed.
+
+Theorem release_safe_joined b plans progs sched :
+  Forall wf_prog progs -> b = true \/ (sumf nclose progs <= 1)%nat ->
+  let s := fst (run step sched (init b plans progs, [])) in
+  joined s <> [] -> someone_setting s = false /\
+  (forall j x, nth_error (jns s) j = Some x -> jmode_ x <> JPend).
+Proof.
+  intros W F s J. destruct (join_after_work b plans progs sched W J) as (Ev & _).
+  destruct (release_safe b plans progs sched F Ev) as (_ & A & B). auto.
+Qed.
